@@ -10,11 +10,21 @@ import math
 # for sensors / conversion factors whose 7th digit does not matter)
 KCAL_TO = {'kcal/mol': 1.0, 'cal/mol': 1000.0, 'J/mol': 4184.0, 'kJ/mol': 4.184,
            'eV/molecule': 4184.0 / (1.6021766208e-19 * 6.022140857e23)}
-ENERGY_UNITS = ['J/mol', 'kJ/mol', 'cal/mol', 'kcal/mol', 'eV/molecule']
-# units accepted by the getters "with units" of reactions (c.R('<units>/K'))
-R_UNITS = ['J/mol', 'kJ/mol', 'cal/mol', 'kcal/mol', 'eV']
+# every energy-per-amount unit convert_unit accepts from kcal/mol (BEP.get_E_act `units`)
+ENERGY_UNITS = ['J/mol', 'kJ/mol', 'cal/mol', 'kcal/mol', 'eV/molecule', 'eV/particle',
+                'Ha/molecule', 'Ha/particle', 'Eh/molecule', 'Eh/particle']
+# every unit of constants.R (without '/K'): accepted by every getter "with units" of a reaction
+R_UNITS = ['J/mol', 'kJ/mol', 'L kPa/mol', 'cm3 kPa/mol', 'm3 Pa/mol', 'cm3 MPa/mol', 'm3 bar/mol',
+           'L bar/mol', 'L torr/mol', 'cal/mol', 'kcal/mol', 'L atm/mol', 'cm3 atm/mol', 'eV', 'Eh', 'Ha']
+# units accepted both by constants.R and by convert_unit (act_energy_unit of the OpenMKM writers)
+ACT_UNITS = ['J/mol', 'kJ/mol', 'cal/mol', 'kcal/mol']
 AVOGADRO = 6.022140857e23
-A_UNITS = ['molec/cm2', 'mol/cm2', 'molec/m2', 'mol/m2']
+QUANTITY_UNITS = ['mol', 'molec', 'molecule', 'particle']
+LENGTH_UNITS = ['cm', 'm', 'km', 'A', 'ft', 'inch']
+# every '<quantity>/<length>2' string SurfaceReaction.get_A(units=...) accepts
+A_UNITS = ['%s/%s2' % (q, l) for q in QUANTITY_UNITS for l in LENGTH_UNITS]
+_CM2_TO = {'cm2': 1.0, 'm2': 1.0e-4, 'km2': 1.0e-10, 'A2': 1.0e16, 'ft2': 1.0 / 30.48 ** 2,
+           'inch2': 1.0 / 2.54 ** 2}
 DESCRIPTORS = ['delta_H', 'rev_delta_H', 'reactants_H', 'products_H',
                'delta_E', 'rev_delta_E', 'reactants_E', 'products_E']
 SDEN_OPS = ['sum', 'min', 'max', 'mean']
@@ -23,10 +33,8 @@ SDEN_OPS = ['sum', 'min', 'max', 'mean']
 def a_unit_factor(units):
     """site density [mol/cm2] -> [units] (own table, not the library's)."""
     q, a = units.split('/')
-    f = AVOGADRO if q == 'molec' else 1.0
-    if a == 'm2':
-        f *= 1.0e4
-    return f
+    f = 1.0 if q == 'mol' else AVOGADRO
+    return f / _CM2_TO[a]
 
 
 # ---------------------------------------------------------------------------
@@ -49,6 +57,22 @@ def nasa(name, h, s, cp=0.0, T_ref=256.0, phase='G', cat_site=None, n_sites=None
                 phase=phase, elements={'H': 1}, **kw)
 
 
+def from_string(cls, r, r_st, p, p_st, ts=None, ts_st=None, **kw):
+    """The same reaction through the alternative constructor <class>.from_string."""
+    if cls == 'Reaction':
+        from pmutt.reaction import Reaction as K
+    elif cls == 'ChemkinReaction':
+        from pmutt.reaction import ChemkinReaction as K
+    else:
+        from pmutt.omkm.reaction import SurfaceReaction as K
+
+    def side(sps, st):
+        return ' + '.join('%s%s' % (('%g' % n) if n != 1 else '', sp.name) for sp, n in zip(sps, st))
+    txt = side(r, r_st) + ' = ' + ((side(ts, ts_st) + ' = ') if ts is not None else '') + side(p, p_st)
+    species = {sp.name: sp for sp in list(r) + list(p) + (list(ts) if ts is not None else [])}
+    return K.from_string(txt, species, **kw)
+
+
 def shomate(name, h, s, cp=0.0, T_ref=256.0, phase='G'):
     """Shomate species (J/mol/K) with H/RT = h, S/R = s at T_ref and constant Cp/R = cp."""
     import numpy as np
@@ -65,11 +89,15 @@ def shomate(name, h, s, cp=0.0, T_ref=256.0, phase='G'):
                    elements={'H': 1})
 
 
-def statmech(name, e_eV, wavenumbers):
-    """Harmonic adsorbate-like StatMech species (has q, U, H, S, G, E)."""
+def statmech(name, e_eV, wavenumbers, phase=None):
+    """Harmonic adsorbate-like StatMech species (has q, U, H, S, G, E).  StatMech has no `phase`
+    attribute of its own; ChemkinReaction reads one, so it is attached when asked for."""
     from pmutt.statmech import StatMech, presets
-    return StatMech(name=name, potentialenergy=e_eV, vib_wavenumbers=list(wavenumbers), spin=0.,
-                    elements={'H': 1}, **presets['harmonic'])
+    sp = StatMech(name=name, potentialenergy=e_eV, vib_wavenumbers=list(wavenumbers), spin=0.,
+                  elements={'H': 1}, **presets['harmonic'])
+    if phase is not None:
+        sp.phase = phase
+    return sp
 
 
 def cat_site(name, site_density, bulk='BULK'):
